@@ -27,14 +27,23 @@ def bws_of(c):
 
 
 def proj(c):
-    """Real Continuum -> raw projection, read through the public API."""
-    anns = list(c.annotators)
-    units = [[a, float(u.segment.start), float(u.segment.end), u.annotation] for a, u in c]
+    """Real Continuum -> raw projection, read through the public API.  Total: an accessor that raises is noted under
+    "problems" (and a neutral value of the right type takes its place) - the library contradicting itself while it is being
+    observed (e.g. an annotator listed by .annotators that continuum[annotator] does not know) is a finding, not a harness crash."""
+    problems = []
+
+    def safe(name, fn, default):
+        try:
+            return fn()
+        except Exception as ex:
+            problems.append(f"{name} raised {ex!r}")
+            return default
+    anns = safe("annotators", lambda: list(c.annotators), [])
+    units = safe("iteration", lambda: [[a, float(u.segment.start), float(u.segment.end), u.annotation] for a, u in c], [])
     views = []
     for a in anns:
-        s = c[a]
-        views.append([a, [[a, float(u.segment.start), float(u.segment.end), u.annotation] for u in s]])
-    lo, hi = c.bounds
+        views.append([a, safe(f"continuum[{a!r}]", lambda: [[a, float(u.segment.start), float(u.segment.end), u.annotation] for u in c[a]], [])])
+    lo, hi = safe("bounds", lambda: tuple(float(x) for x in c.bounds), (0.0, 0.0))
     # derived observables (beyond the listed properties): only where they are defined (labelled units, at least one unit)
     weights, wok = [], 0
     if units and all(u[3] is not None for u in units):
@@ -43,9 +52,20 @@ def proj(c):
             wok = 1
         except Exception:
             wok = 2
-    derived = {"nann": int(c.num_annotators), "maxper": int(c.max_num_annotations_per_annotator), "weights": weights, "wok": wok}
-    return {"derived": derived,"ann": anns, "units": units, "cats": list(c.categories), "lo": float(lo), "hi": float(hi),
-            "n": int(c.num_units), "len": len(c), "bool": 1 if c else 0, "bws": bws_of(c), "views": views}
+    derived = {"nann": safe("num_annotators", lambda: int(c.num_annotators), -1),
+               "maxper": safe("max_num_annotations_per_annotator", lambda: int(c.max_num_annotations_per_annotator), -1), "weights": weights, "wok": wok}
+    return {"derived": derived, "ann": anns, "units": units, "cats": safe("categories", lambda: list(c.categories), []), "lo": float(lo), "hi": float(hi),
+            "n": safe("num_units", lambda: int(c.num_units), -1), "len": safe("len()", lambda: len(c), -1), "bool": safe("bool()", lambda: 1 if c else 0, -1),
+            "bws": safe("best_window_size", lambda: bws_of(c), INF_BWS), "views": views, "problems": problems}
+
+
+def observation_problems(trace):
+    """First event of a recorded history at which reading a continuum through its public accessors raised: (index, problems)."""
+    for l, e in enumerate(trace):
+        for o, p in e.get("obs", []):
+            if p.get("problems"):
+                return l, [f"object {o}: {x}" for x in p["problems"]]
+    return None
 
 
 def observe(objs):
@@ -54,7 +74,10 @@ def observe(objs):
     eq = []
     for i in ids:
         for j in ids:
-            eq.append([i, j, 1 if objs[i] == objs[j] else 0, 1 if objs[i] != objs[j] else 0])
+            try:
+                eq.append([i, j, 1 if objs[i] == objs[j] else 0, 1 if objs[i] != objs[j] else 0])
+            except Exception:
+                eq.append([i, j, -1, -1])      # == raised: judged as "neither equal nor different" (fails ObsEq)
     return obs, eq
 
 
